@@ -15,6 +15,7 @@ fn rerr(e: &str) -> String {
         "Bad file descriptor #2" => "EBadFd2",
         "Bad file descriptor #3" => "EBadFd3",
         "redirection syntax error" => "ESyntax",
+        "syntax error: empty command" => "EEmpty",
         _ => "EOther",
     };
     format!("E({})", n)
